@@ -12,9 +12,17 @@ package jobs
 //@   pure
 
 //@ unit (*IncrementalPipeline).sync$1
-//@   prop C10
+//@   prop C10 C08
 //@   safe make slice
 //@   ghost covered int = 0
+//@   ghost sinkOkG bool = false
+//@   ensures [C10:stop-only-when-the-source-page-was-empty-or-untokenized] result == nil && old(keepReading) && !keepReading ==> len(entities) == 0 || tokenOf(continuationToken) == ""
+//@   ensures [C10:keep-reading-while-the-source-has-more] result == nil && old(keepReading) && len(entities) > 0 && tokenOf(continuationToken) != "" ==> keepReading
+//@   at call processEntities#1
+//@     ghost sinkOkG := $result == nil
+//@   at call StoreObject#1 before
+//@     assert [C08:token-stored-only-after-the-sink-accepted-the-batch] incomingEntityCount == 0 || sinkOkG
+//@     assert [C08:token-stored-under-the-job-id] id == job.id
 //@   loop 1
 //@     invariant 0 <= i && i <= parallelisms && wid == i
 //@     invariant covered == min(index, len(entities))
@@ -219,3 +227,58 @@ package jobs
 //@     invariant -1 <= $i && $i < len(j.errorHandlers)
 //@     invariant $scheduled == old($scheduled)
 //@     invariant forall i int :: 0 <= i && i < len(j.errorHandlers) ==> j.errorHandlers[i] != nil && j.errorHandlers[i].MaxRetries == old(j.errorHandlers[i].MaxRetries)
+
+// ---------------------------------------------------------------------------
+// C10 / C08: the per-batch closures of the two pipelines: the whole source batch goes to the transform, the transform
+// output goes to the sink, the token is only stored after the sink accepted the batch, and reading stops only when
+// the source page was empty or the source is not tokenized
+
+//@ spec tokenOf(c iface) string
+//@ assumed (source.DatasetContinuation).GetToken
+//@   pure
+//@   ensures result == tokenOf(recv)
+//@ assumed (source.DatasetContinuation).Encode
+//@   pure
+//@ ghost $sinkAccepted int
+//@ ghost $transformCalls int
+//@ assumed (jobs.Transform).transformEntities
+//@   modifies $transformCalls
+//@   ensures $transformCalls == old($transformCalls) + 1
+
+//@ unit (*FullSyncPipeline).sync$1
+//@   prop C10 C08
+//@   ghost sinkOkG bool = false
+//@   ensures [C10:stop-only-when-the-source-page-was-empty-or-untokenized] result == nil && old(keepReading) && !keepReading ==> len(entities) == 0 || tokenOf(continuationToken) == ""
+//@   ensures [C10:keep-reading-while-the-source-has-more] result == nil && old(keepReading) && len(entities) > 0 && tokenOf(continuationToken) != "" ==> keepReading
+//@   ensures [C10:transform-called-once-per-nonempty-batch] $transformCalls <= old($transformCalls) + 1
+//@   at call transformEntities#1 before
+//@     assert [C10:whole-source-batch-reaches-the-transform] $arg2 == entities
+//@   at call processEntities#1
+//@     ghost sinkOkG := $result == nil
+//@   at call Encode#1 before
+//@     assert [C08:token-captured-only-after-the-sink-accepted-the-batch] len(entities) == 0 || sinkOkG
+
+//@ assumed (source.Source).ReadEntities
+//@   preserves FullSyncPipeline.*, IncrementalPipeline.*, PipelineSpec.*, job.*, Runner.*
+//@ assumed (source.Source).StartFullSync
+//@   pure
+//@ assumed (source.Source).EndFullSync
+//@   pure
+//@ assumed (jobs.Sink).startFullSync
+//@   pure
+//@ assumed (jobs.Sink).endFullSync
+//@   pure
+//@ assumed (jobs.Transform).EndStoreContext
+//@   pure
+//@ assumed source.DecodeToken
+//@   pure
+
+//@ unit (*FullSyncPipeline).sync
+//@   prop C08
+//@   ghost endOkG bool = false
+//@   requires pipeline != nil && job != nil && job.runner != nil && job.runner.store != nil
+//@   at call endFullSync#1
+//@     ghost endOkG := $result == nil
+//@   at call StoreObject#1 before
+//@     assert [C08:fullsync-token-stored-only-after-the-sync-completed] endOkG
+//@     assert [C08:token-stored-under-the-job-id] id == job.id
